@@ -18,6 +18,8 @@ IPC = "aiohomekit.controller.ip.connection"
 OUTCOMES = ["ok", "InvalidSignatureError", "InvalidAuthTagError", "IncorrectPairingIdError", "AuthenticationError", "InvalidError",
             "TlvParseException", "ValueError", "CancelledError",
             "peer-close-at-M1", "peer-close-at-M3", "http-470-at-M1", "http-400-at-M3"]
+REPRESENTATIVES = ["ok", "InvalidSignatureError", "IncorrectPairingIdError", "ValueError", "CancelledError",
+                   "peer-close-at-M1", "peer-close-at-M3", "http-470-at-M1"]
 HOSTS = [["10.0.0.1"], ["accessory.local"]]  # an advertised literal address, or a name that resolves to it
 
 
@@ -269,9 +271,11 @@ def attempt(M, env, conn, out, late_loss=False):
     return drive(conn._connect_once())
 
 
-def history_unit(M, K):
+def history_unit(M, K, outcomes=None):
+    outcomes = outcomes or OUTCOMES
+
     def h(ex):
-        outs = [ex.choice("outcome%d" % i, OUTCOMES) for i in range(K)]
+        outs = [ex.choice("outcome%d" % i, outcomes) for i in range(K)]
         hosts = ex.choice("hosts", HOSTS)
         late = ex.choice("late_loss_during_attempt", ["none"] + list(range(1, K)))
         stale = ex.choice("peer_closes_connection", ["none"] + list(range(K)))
@@ -326,10 +330,15 @@ def history_unit(M, K):
 def build(tier, mutate=None):
     C = copies(mutate)
     R = real_ipc
-    K = 2 if tier in ("quick", "canary") else 3
-    return [Unit("history/K=%d" % K, history_unit(C, K), history_unit(R, K), split=True,
-                 bounds={"attempts": K, "set-up outcomes": OUTCOMES, "hosts": HOSTS, "late connection_lost between M1 and M2 of a later attempt": "none or any attempt", "peer closes / late connection_lost": "none or any connection made so far", "close()": "with connector none / running / finished (ok, auth error, connection error)"},
-                 regions=["failed-setup", "stale-close", "close", "late-loss-mid-verify"], diff_sample=300)]
+    def unit(K, outcomes):
+        return Unit("history/K=%d/%d-outcomes" % (K, len(outcomes)), history_unit(C, K, outcomes), history_unit(R, K, outcomes), split=True,
+                    bounds={"attempts": K, "set-up outcomes": outcomes, "hosts": HOSTS, "late connection_lost between M1 and M2 of a later attempt": "none or any attempt", "peer closes / late connection_lost": "none or any connection made so far", "close()": "with connector none / running / finished (ok, auth error, connection error)"},
+                    regions=["failed-setup", "stale-close", "close", "late-loss-mid-verify"], diff_sample=300)
+    units = [unit(2, OUTCOMES)]
+    if tier == "thorough":
+        # three attempts with one outcome per handler branch of _connect_once (13^3 x 240 histories is out of the time budget)
+        units.append(unit(3, REPRESENTATIVES))
+    return units
 
 
 CANARIES = [
